@@ -78,10 +78,10 @@ func stateOwned(c *core.Ctx, v ssa.Value, depth int, seen map[ssa.Value]bool) (b
 			return callReturnsStateOwned(c, call, x.Index, depth, seen)
 		}
 	case *ssa.Call:
-		n := core.CalleeName(&x.Call)
+		n := core.CalleeName(core.NormCall(&x.Call))
 		// a big.Int method returns its receiver
 		if strings.HasPrefix(n, "(*math/big.Int).") && bigIntMutating[n[len("(*math/big.Int)."):]] {
-			return stateOwned(c, x.Call.Args[0], depth+1, seen)
+			return stateOwned(c, core.NormCall(&x.Call).Args[0], depth+1, seen)
 		}
 		return callReturnsStateOwned(c, x, 0, depth, seen)
 	}
